@@ -13,6 +13,13 @@ mod index;
 pub mod reader;
 pub mod types;
 
+/// Verification hooks (guarded): access to otherwise private helpers.
+#[cfg(rusty_blockparser_verif)]
+pub mod verif {
+    pub use super::blkfile::verif_parse_blk_index as parse_blk_index;
+    pub use super::index::verif_decode_record as decode_record;
+}
+
 /// Small struct to hold statistics together
 struct WorkerStats {
     pub started_at: Instant,
